@@ -4,6 +4,7 @@ import (
 	"go/ast"
 	"go/token"
 	"go/types"
+	"reflect"
 	"sort"
 	"strings"
 
@@ -432,6 +433,8 @@ func runC18(c *Ctx) {
 	// ---- R3 ----
 	c18Coverage(c, cfgPkg)
 	c18SubValidators(c, cfgPkg)
+	c18RequiredFieldGuards(c, cfgPkg)
+	c18SameParser(c, cfgPkg)
 	c18MustNonNil(c)
 	c18CacheAfterCheck(c)
 	// validated pattern fields are not extended with unvalidated text afterwards:
@@ -1185,4 +1188,281 @@ func c18CacheAfterCheck(c *Ctx) {
 		})
 	}
 	c.Ok("C18-R2", "cache stores of fallible results enumerated", token.NoPos, itoa(n)+" site(s)")
+}
+
+// c18RequiredFieldGuards: a required HCL attribute (`hcl:"x"` without
+// ",optional") has no "unset" value. Where validate() parses such a field and
+// rejects some of the parsed values (`if dur == 0 { return error }`) but does
+// both only under a condition on the field itself (`if s.Max != "" { … }`),
+// every later use of the same parser on the same field must stand under the
+// same condition; otherwise the
+// value the validation skipped reaches the parser unchecked, its error is
+// dropped, and the zero result is what the validation meant to exclude (F40:
+// `range_query { max = "" }` → nil server dereferenced by the check's name).
+func c18RequiredFieldGuards(c *Ctx, cfgPkg *packages.Package) {
+	p := c.P
+	info := cfgPkg.TypesInfo
+	fieldVar := func(e ast.Expr) *types.Var {
+		sel, ok := ast.Unparen(e).(*ast.SelectorExpr)
+		if !ok {
+			return nil
+		}
+		v, ok := info.Uses[sel.Sel].(*types.Var)
+		if !ok || !v.IsField() {
+			return nil
+		}
+		return v
+	}
+	required := func(v *types.Var) bool {
+		// find the struct declaring v and read its tag
+		for _, name := range cfgPkg.Types.Scope().Names() {
+			tn, ok := cfgPkg.Types.Scope().Lookup(name).(*types.TypeName)
+			if !ok {
+				continue
+			}
+			st, ok := tn.Type().Underlying().(*types.Struct)
+			if !ok {
+				continue
+			}
+			for i := 0; i < st.NumFields(); i++ {
+				if st.Field(i) == v {
+					tag := reflect.StructTag(st.Tag(i)).Get("hcl")
+					return tag != "" && !strings.Contains(tag, ",")
+				}
+			}
+		}
+		return false
+	}
+	mentions := func(e ast.Expr, v *types.Var) bool {
+		found := false
+		ast.Inspect(e, func(n ast.Node) bool {
+			if sel, ok := n.(*ast.SelectorExpr); ok && info.Uses[sel.Sel] == v {
+				found = true
+			}
+			return true
+		})
+		return found
+	}
+	// guards on the field itself, rendered without the variable the field is read from
+	fieldGuards := func(fi *FuncInfo, n ast.Node, v *types.Var) map[string]bool {
+		out := map[string]bool{}
+		for _, g := range lexicalGuards(parentMap(fi.Decl.Body), n, fi.Decl.Body) {
+			if g.Tag != nil || !mentions(g.E, v) {
+				continue
+			}
+			t := exprStr(g.E)
+			if be, ok := ast.Unparen(g.E).(*ast.BinaryExpr); ok {
+				side := func(e ast.Expr) string {
+					if fieldVar(e) == v {
+						return "." + v.Name()
+					}
+					return exprStr(e)
+				}
+				t = side(be.X) + " " + be.Op.String() + " " + side(be.Y)
+			}
+			if !g.Truth {
+				t = "!(" + t + ")"
+			}
+			out[t] = true
+		}
+		return out
+	}
+	// validate() itself declares some result of the parse invalid: the value
+	// parsed from the field is compared with a constant on the way to an
+	// error return (`if dur == 0 { return errors.New(…) }`)
+	rejectsResult := func(fi *FuncInfo, call *ast.CallExpr) bool {
+		pm := parentMap(fi.Decl.Body)
+		as, ok := pm[call].(*ast.AssignStmt)
+		if !ok || len(as.Lhs) != 2 {
+			return false
+		}
+		res := objOf(info, as.Lhs[0])
+		if res == nil {
+			return false
+		}
+		found := false
+		for _, r := range returnsIn(fi.Decl.Body.List) {
+			if len(r.Results) != 1 {
+				continue
+			}
+			if tv, ok := info.Types[r.Results[0]]; ok && tv.IsNil() {
+				continue
+			}
+			for _, g := range lexicalGuards(pm, r, fi.Decl.Body) {
+				be, ok := ast.Unparen(g.E).(*ast.BinaryExpr)
+				if !ok || g.Tag != nil {
+					continue
+				}
+				if objOf(info, be.X) == res {
+					if tv, ok := info.Types[be.Y]; ok && tv.Value != nil {
+						found = true
+					}
+				}
+			}
+		}
+		return found
+	}
+	type key struct {
+		v  *types.Var
+		fn *types.Func
+	}
+	type vsite struct {
+		fi     *FuncInfo
+		call   *ast.CallExpr
+		guards map[string]bool
+	}
+	val := map[key]vsite{}
+	uses := map[key][]vsite{}
+	for _, fi := range p.AllFuncs() {
+		if fi.Pkg != cfgPkg || fi.Decl.Body == nil || p.IsTestFile(fi.Decl.Pos()) {
+			continue
+		}
+		isVal := fi.Obj.Name() == "validate"
+		ast.Inspect(fi.Decl.Body, func(n ast.Node) bool {
+			call, ok := n.(*ast.CallExpr)
+			if !ok || len(call.Args) != 1 {
+				return true
+			}
+			fn := Callee(info, call)
+			if fn == nil {
+				return true
+			}
+			sig := fn.Type().(*types.Signature)
+			if sig.Results().Len() != 2 || sig.Results().At(1).Type().String() != "error" {
+				return true
+			}
+			v := fieldVar(call.Args[0])
+			if v == nil || !required(v) {
+				return true
+			}
+			s := vsite{fi, call, fieldGuards(fi, call, v)}
+			if isVal {
+				if !rejectsResult(fi, call) {
+					return true
+				}
+				val[key{v, fn}] = s
+			} else {
+				uses[key{v, fn}] = append(uses[key{v, fn}], s)
+			}
+			return true
+		})
+	}
+	n := 0
+	for k, vs := range val {
+		n++
+		var missing []string
+		for _, u := range uses[k] {
+			for g := range vs.guards {
+				if !u.guards[g] {
+					missing = append(missing, "`"+g+"` (use in "+u.fi.Obj.Name()+" at "+p.Pos(u.call.Pos())+")")
+				}
+			}
+		}
+		sort.Strings(missing)
+		c.Check(len(missing) == 0, "C18-R3", "validate:required field "+typeQNameOfField(cfgPkg, k.v)+" is parsed by "+k.fn.Name()+" whenever its later uses are", vs.call.Pos(),
+			itoa(len(uses[k]))+" later use(s) under the same conditions",
+			"validate() parses the required attribute "+k.v.Name()+" only under "+strings.Join(missing, ", ")+", which the later use does not repeat: the value the validation skips (an empty string) is parsed there with its error dropped, and the zero result reaches the check")
+	}
+	c.Check(n >= 1, "C18-R3", "required attributes whose parsed value validate() restricts, enumerated", token.NoPos, itoa(n), "fewer than confirmed ("+itoa(n)+")")
+}
+
+func typeQNameOfField(pkg *packages.Package, v *types.Var) string {
+	for _, name := range pkg.Types.Scope().Names() {
+		if tn, ok := pkg.Types.Scope().Lookup(name).(*types.TypeName); ok {
+			if st, ok := tn.Type().Underlying().(*types.Struct); ok {
+				for i := 0; i < st.NumFields(); i++ {
+					if st.Field(i) == v {
+						return name + "." + v.Name()
+					}
+				}
+			}
+		}
+	}
+	return v.Name()
+}
+
+// c18SameParser: a value whose parse error is dropped after loading
+// (`limit, _ := parseDuration(rule.RangeQuery.Max)`) was accepted by validate()
+// with the same parser. A different one (time.ParseDuration instead of the
+// Prometheus-style parseDuration) accepts a different language: what
+// validation admitted fails here, the error is gone, and the zero value is used.
+func c18SameParser(c *Ctx, cfgPkg *packages.Package) {
+	p := c.P
+	info := cfgPkg.TypesInfo
+	fieldOf := func(e ast.Expr) *types.Var {
+		sel, ok := ast.Unparen(e).(*ast.SelectorExpr)
+		if !ok {
+			return nil
+		}
+		v, ok := info.Uses[sel.Sel].(*types.Var)
+		if !ok || !v.IsField() || v.Pkg() != cfgPkg.Types {
+			return nil
+		}
+		return v
+	}
+	// parser calls inside validate()/validation helpers, per field
+	validated := map[*types.Var]map[string]bool{}
+	type use struct {
+		fi   *FuncInfo
+		call *ast.CallExpr
+		v    *types.Var
+		fn   string
+	}
+	var uses []use
+	for _, fi := range p.AllFuncs() {
+		if fi.Pkg != cfgPkg || fi.Decl.Body == nil || p.IsTestFile(fi.Decl.Pos()) {
+			continue
+		}
+		isVal := fi.Obj.Name() == "validate"
+		pm := parentMap(fi.Decl.Body)
+		ast.Inspect(fi.Decl.Body, func(n ast.Node) bool {
+			call, ok := n.(*ast.CallExpr)
+			if !ok || len(call.Args) != 1 {
+				return true
+			}
+			fn := Callee(info, call)
+			if fn == nil {
+				return true
+			}
+			sig := fn.Type().(*types.Signature)
+			if sig.Results().Len() != 2 || sig.Results().At(1).Type().String() != "error" {
+				return true
+			}
+			v := fieldOf(call.Args[0])
+			if v == nil {
+				return true
+			}
+			q := funcQName(fn)
+			if isVal {
+				if validated[v] == nil {
+					validated[v] = map[string]bool{}
+				}
+				validated[v][q] = true
+				return true
+			}
+			if as, ok := pm[call].(*ast.AssignStmt); ok && len(as.Lhs) == 2 {
+				if id, ok := as.Lhs[1].(*ast.Ident); ok && id.Name == "_" {
+					uses = append(uses, use{fi, call, v, q})
+				}
+			}
+			return true
+		})
+	}
+	n := 0
+	for _, u := range uses {
+		if len(validated[u.v]) == 0 {
+			// never parsed at load time: no second parser to disagree with; a nil-able
+			// result of such a call is the business of the dropped-error rule (R2)
+			continue
+		}
+		n++
+		var have []string
+		for q := range validated[u.v] {
+			have = append(have, q)
+		}
+		sort.Strings(have)
+		c.Check(validated[u.v][u.fn], "C18-R1", u.fi.Obj.Name()+":"+typeQNameOfField(cfgPkg, u.v)+" parsed (error dropped) with the parser validate() used", u.call.Pos(), u.fn,
+			"the error of "+u.fn+"("+u.v.Name()+") is dropped here, but validate() accepted the value with ["+strings.Join(have, ", ")+"]: a value that only the validating parser understands (`1d` for a Prometheus duration) fails here unnoticed and the zero value reaches the check")
+	}
+	c.Check(n >= 4, "C18-R1", "dropped-error parses of validated config fields enumerated", token.NoPos, itoa(n), "fewer than confirmed ("+itoa(n)+")")
 }
